@@ -4,6 +4,9 @@ import (
 	"context"
 	"io"
 	"os"
+	"runtime"
+	"sync"
+	"time"
 
 	"github.com/ozontech/seq-db/disk"
 	"github.com/ozontech/seq-db/metric/stopwatch"
@@ -15,11 +18,20 @@ type vFile struct {
 	data    []byte
 	tearAt  int  // >= 0: the next WriteAt stores only this many bytes and then the process dies
 	crashed bool // set when the torn write happened
+	yield   bool // concurrent_bulks: any write may be overtaken by the other goroutines
 }
 
 type vCrash struct{}
 
 func (f *vFile) WriteAt(p []byte, off int64) (int, error) {
+	if f.yield && rt.Choose(2) == 1 {
+		// the writer is descheduled just before the system call: the other goroutines run until they block or finish
+		if rt.Symbolic() {
+			runtime.Gosched()
+		} else {
+			time.Sleep(30 * time.Millisecond)
+		}
+	}
 	n := len(p)
 	if f.tearAt >= 0 {
 		n = f.tearAt
@@ -204,6 +216,56 @@ func VerifCrashHistory() {
 				}
 			}
 		}
+	}
+	rt.Reach("end")
+}
+
+// VerifConcurrentBulks: two bulks written concurrently through the same ActiveWriter - each
+// write possibly overtaken by the other goroutine - are, after a restart, both replayed once, at
+// the physical offsets of their documents.
+func VerifConcurrentBulks() {
+	docs, meta := &vFile{tearAt: -1}, &vFile{tearAt: -1}
+	w, _, _ := vRestart(docs, meta)
+	docs.yield, meta.yield = true, true
+	const n = 2
+	var wg sync.WaitGroup
+	var blen int
+	for i := 0; i < n; i++ {
+		db := disk.PackDocBlock([]byte{byte(0xD0 + i)}, nil)
+		mb := disk.PackDocBlock([]byte{byte(0xA0 + i)}, nil)
+		blen = len(db)
+		wg.Add(1)
+		go func() {
+			defer wg.Done()
+			err := w.Write(db, mb, stopwatch.New())
+			rt.Assert(err == nil, "write without I/O error succeeds")
+		}()
+	}
+	wg.Wait()
+	docs.yield, meta.yield = false, false
+	rt.Reach("written")
+	rt.Assert(len(docs.data) == n*blen, "both document blocks are in the docs file")
+	_, tasks, err := vRestart(docs, meta)
+	rt.Assert(err == nil, "the store comes back up: replay succeeds")
+	rt.Assert(len(tasks) == n, "every acknowledged bulk is replayed exactly once")
+	for i := 0; i < n; i++ {
+		// where the documents of bulk i physically are
+		off := -1
+		for k := 0; k < n; k++ {
+			blk := disk.DocBlock(docs.data[k*blen : (k+1)*blen])
+			if blk.Len() == 1 && blk.Payload()[0] == byte(0xD0+i) {
+				off = k * blen
+			}
+		}
+		rt.Assert(off >= 0, "documents of the bulk are intact in the docs file")
+		cnt := 0
+		for _, t := range tasks {
+			if t.metaLen == 1 && t.metaByte == byte(0xA0+i) {
+				cnt++
+				rt.Assert(t.pos == uint64(off), "replayed position = physical offset of the bulk's documents (concurrent writers)")
+			}
+		}
+		rt.Assert(cnt == 1, "acknowledged bulk is replayed exactly once (concurrent writers)")
 	}
 	rt.Reach("end")
 }
